@@ -23,9 +23,13 @@ def seeded_summary():
     missed = [j["id"] for j in ms if "missed first" in j["result"] or "missed at first" in j["result"] or "missed by" in j["result"] or "after adding" in j["result"]]
     r1 = [j for j in ms if j["id"][-1] in "ab"]
     r2 = [j for j in ms if j["id"][-1] in "cd"]
-    return ("%d kept mutants (%d from the first round, ids -a/-b; %d from the second, ids -c/-d, whose authors were told which sites "
-            "the first round had used). All are detected by the current checks. %d were missed by the check as it stood when the mutant "
-            "arrived (%s)." % (len(ms), len(r1), len(r2), len(missed), ", ".join(missed)))
+    r3 = [j for j in ms if j["id"][-1] in "ef"]
+    def nm(r):
+        return len([j for j in r if j["id"] in missed])
+    return ("%d kept mutants: %d from the first round (ids -a/-b, %d missed at first), %d from the second (ids -c/-d, %d missed at first; "
+            "their authors were told which sites the first round had used), %d from the third (ids -e/-f, %d missed at first; told the sites "
+            "of both earlier rounds). All are detected by the current checks. Missed by the check as it stood when the mutant arrived: %s."
+            % (len(ms), len(r1), nm(r1), len(r2), nm(r2), len(r3), nm(r3), ", ".join(missed)))
 
 def main():
     p = os.path.join(V, "DESIGN.md")
